@@ -29,6 +29,9 @@ def gen_kw_grammar(rng):
     kws = rng.sample(KW_POOL, rng.randint(1, 3))
     if rng.random() < 0.25:     # a long keyword list (the generated KEYWORDS table spans several lines)
         kws = rng.sample(BIG_POOL, rng.randint(9, len(BIG_POOL)))
+    if rng.random() < 0.3:      # spellings that differ only in case are different keywords (unless ignorecase)
+        k = rng.choice(kws)
+        kws = kws + [v for v in {k.upper(), k.capitalize(), k.lower()} if v not in kws][:rng.randint(1, 2)]
     quoted = rng.random() < 0.3
     name_pat = rng.choice([r'[a-z]+', r'\w+', r'[A-Za-z]+', r'[a-zA-Z][a-zA-Z0-9]*'])
     ident_body = ('pat', name_pat) if rng.random() < 0.8 else ('choice', [('tok', 'if'), ('tok', 'foo'), ('pat', name_pat)])
@@ -47,7 +50,8 @@ def gen_kw_grammar(rng):
         start = ('seq', [('choice', [('seq', [('tok', 'if'), ('named', False, 'c', ('call', 'ident')), ('tok', 'then'), ('named', False, 's', ('call', 'ident'))]),
                                      ('named', False, 'name', ('call', 'ident'))]), 'eof'])
     plain = ('plain', [], ident_body)     # the same rule without the decorator, for the "unaffected" oracle
-    g = {'rules': [('start', [], start), ('ident', ['name'], ident_body)],
+    deco = ['name'] + (['nomemo'] if rng.random() < 0.3 else [])       # a @name rule may also be @nomemo (another decorator path in generated code)
+    g = {'rules': [('start', [], start), ('ident', deco, ident_body)],
          'directives': {}, 'keywords': [("'" + k + "'") if quoted else k for k in kws]}
     if rng.random() < 0.35:
         g['directives']['ignorecase'] = rng.choice(['True', 'False'])
@@ -128,7 +132,7 @@ def shard(col, shard_i, ngrammars, ninputs):
                                   f'a @name rule succeeded with the keyword {v!r} (effective ignorecase={eff})',
                                   {'oracle': 'never a keyword', 'case': c.describe(), 'keywords': kws, 'value': v, 'result': io})
         # generated parser agrees
-        if col.rng.random() < 0.3 or len(kws) >= 9:
+        if col.rng.random() < 0.3 or len(kws) >= 9 or 'nomemo' in c.g['rules'][1][1]:
             go, _ = R.gen_outcome(c)
             col.count('genparser.compared')
             if isinstance(go, tuple) and go and go[0] in ('ok', 'fail', 'exc') and go != io:
@@ -137,7 +141,7 @@ def shard(col, shard_i, ngrammars, ninputs):
                               {'oracle': 'generated parser', 'case': c.describe(), 'model.parse': io, 'generated': go})
         # non-keywords unaffected: the same grammar with the decorator removed
         g2 = dict(c.g)
-        g2['rules'] = [(n, [], e) for n, dd, e in c.g['rules']]
+        g2['rules'] = [(n, [x for x in dd if x != 'name'], e) for n, dd, e in c.g['rules']]
         has_kw = any(w.upper() in {k.upper() for k in kws} for w in c.text.split())
         if io[0] == 'ok' and not has_kw and col.rng.random() < 0.7:
             m2 = R.compile_grammar(g2)
@@ -150,6 +154,45 @@ def shard(col, shard_i, ngrammars, ninputs):
                                   {'oracle': 'non-keywords unaffected', 'case': c.describe(), 'with': io, 'without': o2})
     if cases:
         col.sample(cases[len(cases) // 2].describe())
+
+
+def shard_history(col, shard_i, nhist):
+    """one generated parser OBJECT over a history of calls with per-call ignorecase (failing calls in between): the keyword check of
+    every call must be the one a fresh parser and model.parse make"""
+    import tatsu
+    rng = col.rng
+
+    def outcome(run):
+        try:
+            return ('ok', E.canon(run()))
+        except tatsu.exceptions.FailedParse:
+            return ('fail', None)
+        except Exception as e:  # noqa
+            return ('exc', type(e).__name__)
+    for _ in range(nhist):
+        g, kws, shape = gen_kw_grammar(rng)
+        cls = R.generated_parser(g)
+        m = R.compile_grammar(g)
+        if isinstance(cls, tuple) or isinstance(m, tuple):
+            continue
+        texts = gen_texts(rng, 8, kws)
+        reused = cls()
+        hist = []
+        for step in range(rng.randint(3, 7)):
+            t = rng.choice(texts)
+            kw = dict(rng.choice([{}, {}, {'ignorecase': True}, {'ignorecase': False}]))
+            hist.append((t, kw))
+            a = outcome(lambda: reused.parse(t, **kw))
+            b = outcome(lambda: cls().parse(t, **kw))
+            c = outcome(lambda: m.parse(t, **kw))
+            col.case(['kw-history', E.grammar_text(g), repr(hist)], nontrivial=step > 0)
+            col.count('history.calls')
+            if a != b or a[0] != c[0]:
+                col.violation(f'oracle:keyword-history:reused={a[0]}:fresh={b[0]}:model={c[0]}',
+                              'a reused generated parser applies the keyword check of an earlier call (or differs from the model)',
+                              {'oracle': 'keyword check per call', 'grammar': E.grammar_text(g), 'keywords': kws, 'history': hist,
+                               'reused': a, 'fresh': b, 'model.parse': c})
+                break
 
 
 def main():
@@ -166,8 +209,10 @@ def main():
     if ok:
         if chk.quick:
             vlib.run_sharded(chk, shard, 14, extra=(10, 8))
+            vlib.run_sharded(chk, shard_history, 14, extra=(8,))
         else:
             vlib.run_sharded(chk, shard, 28, extra=(60, 14))
+            vlib.run_sharded(chk, shard_history, 28, extra=(60,))
         chk.obligation('E1: grammars with keywords, implementation vs model', 'correspondence',
                        not any(v['signature'].startswith('E1kw') for v in chk.violations))
         chk.obligation('never a keyword / generated parser / undecorated grammar (implementation only)', 'oracle',
